@@ -18,12 +18,22 @@ CFG = {
                  "Display = Display of the documented grouping. Distinct by the Gallina term of the case; non-trivial = at least two operators/postfix forms. "
                  "Exhaustive every run: all `a op1 b op2 c` (both groupings) over the 17 infix operators and `not in`, unary x infix (both nestings), "
                  "infix x filter / test / `is not`, ternary against every operator in every position, unary/filter/test nestings, subscripts on every base "
-                 "kind; each in minimal and fully parenthesised form. praw: mutated and hand-written malformed token streams, accept/reject and Display. "
+                 "kind; each in minimal and fully parenthesised form. Literals (parse_array / parse_map / parse_list_comprehension), exhaustive every run: empty and nested "
+                 "array / map literals, every placement of spreads among 1..3 elements, literal-only (folded) and mixed, each with and without a trailing comma (also nested); "
+                 "comprehensions with/without key x with/without `if` x 14 kinds of element / target / condition (ternaries, literals, comprehensions inside); 9 literal forms as "
+                 "left and right operand of every operator, under unary operators, filters, tests, in every ternary position, as argument, index, subscript base; literals whose "
+                 "elements sit at the recursion limit (37..41 levels) and at the array-dimension limit; random trees carry random trailing commas. "
+                 "praw: mutated and hand-written malformed token streams (incl. 62 literal / comprehension texts around the trailing-comma, spread, `for` lookahead, reserved-variable "
+                 "and dimension rules), accept/reject and Display. "
                  "eval: expression x context (each free variable bound to a value of every kind or unbound), `{{ (e) | probe }}` value or `{{ e }}` ok/error vs the "
                  "reference evaluator (cases the documentation leaves open count as evaluated but not as non-trivial evidence of agreement); systematic: every "
                  "operand kind x every operator shape with `throw()` planted in the operand that must not be evaluated. Oracle on every probe-mode case: the "
                  "directly printed `{{ e }}` (the form the peephole pass fuses) gives the text of `{{ v }}` for the value v that e evaluates to, and fails exactly "
                  "when e fails or is undefined; ternary/and/or shapes with bare variables and dotted paths (bound, unbound) in every branch. "
+                 "List comprehensions and spreads (block C): `[E for x in xs if C]` over 14 targets (arrays of every element kind, nested, empty; non-arrays; unbound) x 16 element "
+                 "expressions x 13 conditions (full product in the thorough tier, a slice through each face in the quick tier) with an outer `x` bound (shadowing) and `throw()` as "
+                 "element / condition / target, plus 27 scoping / laziness / nesting / spread-of-result / key-value forms; the reference evaluator decides array targets without key "
+                 "variable (filter + map, condition first, first error wins), the rest counts as evaluated only. "
                  "Computed keys: 8 maps (literals with integer/string/bool keys, folded and with a spread; context maps keyed by u64 / i64 / i128+u128 / strings) x 29 keys "
                  "(literals, variables of every integer width, `0 + 1`, `n * 1`, `3 - 2`, `4 // 2`, `7 % 4`, `'a' ~ 'b'`, `xs | length`, ternaries, `or`/default) under "
                  "`[]`, `?[`, `in`, `not in`; arrays indexed by the same keys; the model looks keys up by mathematical value across widths (Model.Order.key_eq). "
@@ -39,12 +49,16 @@ CFG = {
         "for nested ternaries and for `x[a:]` vs `x[a]` - those are separated by the evaluation family",
     ],
     "modelled": ["parsing/parser.rs binding powers 29-59, parse_subscript 212-287, parse_ident 290-374, parse_kwargs 376-413, parse_filter/parse_test 512-550, "
-                 "parse_map 552-622, parse_array 624-680, inner_parse_expression + parse_expr_bp 685-894, parse_list_comprehension 1010-1076",
+                 "parse_map, parse_array (element loop, trailing-comma rule, spread marker, `for` lookahead after the first element, array_dimension counter, literal-only folding), "
+                 "inner_parse_expression + parse_expr_bp, parse_list_comprehension (reserved variable names, optional key, target and condition at TERNARY_L_BP + 1)",
                  "parsing/ast.rs Display of Expression and of the node structs",
                  "docs/content/_index.md 'Operator precedence' (levels), operator semantics sections (evaluator)"],
     "assumptions": ["associativity is not stated by the documentation: `**` groups to the right, every other operator to the left (Jinja2/Python convention)",
-                    "the round-trip theorem covers the whole expression grammar except array/map literals and list comprehensions (parsed by dedicated "
-                    "functions, atoms for precedence); those are covered by the correspondence run only",
+                    "the round-trip theorems cover the whole expression grammar of the property including array/map literals with spreads and trailing commas and list "
+                    "comprehensions; the AST-side variant is stated for the trees the parser can build (`normal`: literal-only containers are folded, folded maps have "
+                    "distinct keys)",
+                    "MAX_EXPRESSION_DEPTH (D11 repair: > 256 loop-built links on one spine are a syntax error) is not part of Model/Pratt.v; the theorems speak about the model, "
+                    "which accepts such chains (Model/ParseDepth.v, C06, models that limit)",
                     "inline component calls `<name .../>` inside expressions are outside the model (token streams containing them are skipped)",
                     "implementation == model only on the cases enumerated by the harness"],
 }
@@ -53,8 +67,9 @@ MANIFEST = (
     "Rocq proof: Pratt parser model o documented-table printer = identity for all expression trees, all parenthesisations, any well-formed binding-power table; "
     "tables re-extracted from parser.rs and the docs; big-step evaluator from the documentation with short-circuit/laziness/undefined theorems; correspondence run",
     "Theorems (Props/C02.v, closed under the global context): the binding powers of parser.rs order the operators exactly as the documented table; the Gallina port of "
-    "the Pratt loop parses what the documented-table printer prints back to the same tree for every expression tree, every placement of redundant parentheses, every "
-    "depth within the recursion limit; and/or/ternary laziness, one-level-undefined and no-coercion characterisations of the reference evaluator. The port and the "
+    "the Pratt loop and of the array / map / list-comprehension loops parses what the documented-table printer prints back to the same tree for every expression tree "
+    "(including literals with spreads and comprehensions), every placement of redundant parentheses and trailing commas, every depth within the recursion, bracket and "
+    "array-dimension limits; and/or/ternary laziness, one-level-undefined and no-coercion characterisations of the reference evaluator. The port and the "
     "evaluator are tied to the Rust code by running both on generated and exhaustively enumerated operator shapes inside coqc. A universal theorem is the right level "
     "because the property quantifies over all operator combinations and nestings.",
     "§6 C02, Appendix A.1",
